@@ -594,3 +594,23 @@ def expand_var(f, p, pr=None):
         if dp != p:
             out.append(dp)
     return out or [p]
+
+
+def prov_eq(a, b):
+    """Equality of two provenance strings up to depth truncation: a `_` (the cut of a too deep sub-expression) in one
+    of them stands for whatever the other has there."""
+    if a == b:
+        return True
+    import re as _re
+
+    def rx(x):
+        parts = _re.split(r"(?<=[(,])_(?=[),])", x)
+        return "^" + ".*".join(_re.escape(p_) for p_ in parts) + "$"
+    for x, y in ((a, b), (b, a)):
+        if "_" in x and _re.search(r"(?<=[(,])_(?=[),])", x):
+            try:
+                if _re.match(rx(x), y):
+                    return True
+            except _re.error:
+                pass
+    return False
